@@ -631,7 +631,9 @@ pub fn program_set(set: &str) -> Vec<Program<DashFam>> {
     let small: Vec<DOp> = vec![DOp::Insert(0, 1), DOp::Get(0), DOp::Remove(0), DOp::EntryOrInsert(1, 2), DOp::Alter(0, 100), DOp::Iter, DOp::Clear];
     // B1: two threads on the map, two keys (one of them pre-filled by main): plain operations and guards
     if !thorough {
-        let mut bs = plain_bodies(&small, 2);
+        let mut bs = plain_bodies(&small, 1);
+        let small5 = vec![DOp::Insert(0, 1), DOp::Get(0), DOp::Remove(0), DOp::EntryOrInsert(1, 2), DOp::Iter];
+        bs.extend(plain_bodies(&small5, 2).into_iter().filter(|b| b.len() == 2));
         bs.extend(hold_bodies(&keys, &[]));
         pairs(&mut out, &pre, &bs, |a, b| a + b <= 3);
     } else {
